@@ -13,6 +13,7 @@
 #include "QXmppHash.h"
 #include "QXmppJingleData.h"
 #include "QXmppMixInvitation.h"
+#include "QXmppMucIq.h"
 #include "QXmppOutOfBandUrl.h"
 #include "QXmppPubSubAffiliation.h"
 #include "QXmppPubSubBaseItem.h"
@@ -22,6 +23,7 @@
 #include "QXmppTrustMessageElement.h"
 #include "QXmppTrustMessageKeyOwner.h"
 #include "QXmppUtils.h"
+#include "QXmppUtils_p.h"
 #include <QDateTime>
 #include <QTimeZone>
 #include "QXmppIbbIq.h"
@@ -633,6 +635,85 @@ static std::vector<ClassEntry> classTable()
         variant("PubSubIqDefault", PubSubIqBase::Default, false);
         variant("PubSubIqOwnerDefault", PubSubIqBase::OwnerDefault, false);
     }
+    {
+        // QXmppStanza::Error inside a holder <iq xmlns="jabber:client">: parse() gets firstChildElement(holder, "error"), toXml() may write nothing
+        using E = QXmppStanza::Error;
+        ClassEntry e; e.name = "StanzaError"; e.cxx = "QXmppStanza::Error"; e.fieldNames = { "error" };
+        auto heldIq = [](const E &o) { QByteArray out; QBuffer buf(&out); buf.open(QIODevice::WriteOnly); QXmlStreamWriter w(&buf); w.writeStartElement("iq"); w.writeDefaultNamespace("jabber:client"); o.toXml(&w); w.writeEndElement(); return out; };
+        auto tv = [](const E &o) {
+            const bool uriCond = o.condition() == E::Gone || o.condition() == E::Redirect;
+            const bool unset = o.type() == E::NoType && o.condition() == E::NoCondition;
+            // XEP-0363 children are not described by the schema; without type and condition nothing is written at all
+            if (o.fileTooLarge() || o.retryDate().isValid()) g_outsideModel = true;
+            if (unset && (!o.by().isEmpty() || o.code() > 0 || !o.text().isEmpty())) g_outsideModel = true;
+            // the URI getter may return what an EARLIER <gone/> said; it is written (and canonical) only for gone / redirect
+            if (!uriCond && !o.redirectionUri().isEmpty()) stat("stanza_error_uri_kept_for_other_condition");
+            return Vals { vR({ vS(o.by()), int(o.type()) < 0 ? vO(false) : vO(true, quint64(int(o.type()))),
+                               o.code() > 0 ? vO(true, quint64(o.code())) : vO(false),
+                               vR({ int(o.condition()) < 0 ? vO(false) : vO(true, quint64(int(o.condition()))), vS(uriCond ? o.redirectionUri() : QString()) }),
+                               vR({ vS(o.text()) }) }) };
+        };
+        e.run = [=](const QDomElement &el, QByteArray &out, Vals &vals) {
+            E o; auto ee = firstChildElement(el, u"error");
+            if (!ee.isNull()) o.parse(ee);
+            out = heldIq(o); vals = tv(o); return true;
+        };
+        e.build = [=](const Vals &v, Vals &rep) {
+            E o; auto &f = v.at(0).items;
+            o.setBy(f.at(0).s); if (f.at(1).has) o.setType(E::Type(int(f.at(1).n))); if (f.at(2).has) o.setCode(int(f.at(2).n));
+            auto &c = f.at(3).items; if (c.at(0).has) o.setCondition(E::Condition(int(c.at(0).n))); o.setRedirectionUri(c.at(1).s);
+            o.setText(f.at(4).items.at(0).s);
+            rep = tv(o); return heldIq(o);
+        };
+        t.push_back(e);
+    }
+    {
+        auto aff = [](const QXmppMucItem &o) { return int(o.affiliation()) == 0 ? vO(false) : vO(true, quint64(int(o.affiliation()) - 1)); };
+        auto role = [](const QXmppMucItem &o) { return int(o.role()) == 0 ? vO(false) : vO(true, quint64(int(o.role()) - 1)); };
+        auto itemVals = [=](const QXmppMucItem &o) { return Vals { aff(o), vS(o.jid()), vS(o.nick()), role(o), vR({ vS(o.actor()) }), vR({ vS(o.reason()) }) }; };
+        auto itemOf = [](const Vals &v) {
+            QXmppMucItem o;
+            o.setAffiliation(QXmppMucItem::Affiliation(v.at(0).has ? int(v.at(0).n) + 1 : 0)); o.setJid(v.at(1).s); o.setNick(v.at(2).s);
+            o.setRole(QXmppMucItem::Role(v.at(3).has ? int(v.at(3).n) + 1 : 0)); o.setActor(v.at(4).items.at(0).s); o.setReason(v.at(5).items.at(0).s);
+            return o;
+        };
+        plain("MucItem", { "affiliation", "jid", "nick", "role", "actor", "reason" }, itemVals, itemOf);
+        t.push_back(payload<QXmppMucAdminIq>("MucAdminIq", { "items" },
+            [=](const QXmppMucAdminIq &o) { Vals items; for (auto &i : o.items()) items.push_back(vR(itemVals(i))); return Vals { vL(items) }; },
+            [=](QXmppMucAdminIq &o, const Vals &v) { QList<QXmppMucItem> l; for (auto &it : v.at(0).items) l << itemOf(it.items); o.setItems(l); }));
+    }
+    {
+        // QXmppJingleReason inside a holder <x>: parse() gets holder.firstChildElement("reason"), toXml() may write nothing
+        using R = QXmppJingleReason;
+        static const char *REASONS[] = { "alternative-session", "busy", "cancel", "connectivity-error", "decline", "expired", "failed-application", "failed-transport",
+            "general-error", "gone", "incompatible-parameters", "media-error", "security-error", "success", "timeout", "unsupported-applications", "unsupported-transports" };
+        ClassEntry e; e.name = "JingleReason"; e.cxx = "QXmppJingleReason"; e.fieldNames = { "reason" };
+        auto heldX = [](const R &o) { QByteArray out; QBuffer buf(&out); buf.open(QIODevice::WriteOnly); QXmlStreamWriter w(&buf); w.writeStartElement("x"); o.toXml(&w); w.writeEndElement(); return out; };
+        auto tv = [](const R &o) {
+            if (o.type() == R::None && (!o.text().isEmpty() || o.rtpErrorCondition() != R::NoErrorCondition)) g_outsideModel = true;
+            return Vals { vR({ vR({ vS(o.text()) }), vR({ o.type() == R::None ? vO(false) : vO(true, quint64(int(o.type()) - 1)), vS(QString()) }),
+                               o.rtpErrorCondition() == R::NoErrorCondition ? vO(false) : vO(true, quint64(int(o.rtpErrorCondition()) - 1)) }) };
+        };
+        e.run = [=](const QDomElement &el, QByteArray &out, Vals &vals) {
+            R o; auto re = el.firstChildElement("reason");
+            o.parse(re);
+            out = heldX(o); vals = tv(o);
+            // parse() prefers the reason that comes first in the ENUM, the schema the one that comes first in the document
+            std::set<QString> present;
+            for (auto c = re.firstChildElement(); !c.isNull(); c = c.nextSiblingElement())
+                for (auto *r : REASONS) if (c.tagName() == QLatin1String(r)) present.insert(c.tagName());
+            if (present.size() > 1) g_outsideModel = true;
+            return true;
+        };
+        e.build = [=](const Vals &v, Vals &rep) {
+            R o; auto &f = v.at(0).items;
+            o.setText(f.at(0).items.at(0).s);
+            o.setType(f.at(1).items.at(0).has ? R::Type(int(f.at(1).items.at(0).n) + 1) : R::None);
+            o.setRtpErrorCondition(f.at(2).has ? R::RtpErrorCondition(int(f.at(2).n) + 1) : R::NoErrorCondition);
+            rep = tv(o); return heldX(o);
+        };
+        t.push_back(e);
+    }
     return t;
 }
 
@@ -691,9 +772,11 @@ static void collect(Tree &t, std::vector<Tree *> &els) { if (t.isText) return; e
 static bool hasAttr(const Tree &t, const QString &n) { for (auto &a : t.attrs) if (a.first == n) return true; return false; }
 
 enum { M_ATTR_REMOVE, M_ATTR_GARBLE, M_ATTR_RENAME, M_ATTR_ADD, M_CHILD_DELETE, M_CHILD_DUP, M_CHILD_REORDER, M_RENS, M_RETAG,
-       M_FOREIGN_CHILD, M_TEXT_INSERT, M_TEXT_GARBLE, M_ROOT, M_KINDS };
+       M_FOREIGN_CHILD, M_TEXT_INSERT, M_TEXT_GARBLE, M_ROOT, M_SIBLING_VARIANT, M_KINDS };
 static const char *M_NAMES[] = { "attr-remove", "attr-garble", "attr-rename", "attr-add", "child-delete", "child-duplicate", "child-reorder",
-    "re-namespace", "re-tag", "foreign-child", "text-insert", "text-garble", "root-change" };
+    "re-namespace", "re-tag", "foreign-child", "text-insert", "text-garble", "root-change", "sibling-variant" };
+// tag names the schema of the class under test knows (driver op codec-tags): material for M_SIBLING_VARIANT
+static std::vector<QString> g_classTags;
 
 // applies one mutation of the given kind if it is applicable; returns false otherwise
 static bool mutate(Tree &root, int kind, Rng &rng)
@@ -758,6 +841,18 @@ static bool mutate(Tree &root, int kind, Rng &rng)
         std::vector<Tree *> c; for (auto *x : els) for (auto &k : x->kids) if (k.isText) c.push_back(&k);
         if (c.empty()) return false;
         c[rng.below(c.size())]->name = POOL(VALUE_POOL, rng) + "z"; return true; }
+    case M_SIBLING_VARIANT: {
+        // a copy of an existing child under ANOTHER tag the class knows, next to it: two condition elements in one <error/>,
+        // two query elements in one <pubsub/>, ... (first-match / last-match / priority rules of the parsers differ here)
+        if (g_classTags.empty()) return false;
+        std::vector<std::pair<Tree *, size_t>> c;
+        for (auto *x : els) for (size_t k = 0; k < x->kids.size(); k++) if (!x->kids[k].isText) c.emplace_back(x, k);
+        if (c.empty()) return false;
+        auto pick = c[rng.below(c.size())];
+        Tree k = pick.first->kids[pick.second];
+        k.name = g_classTags[rng.below(g_classTags.size())];
+        if (rng.below(4) == 0) k.kids.clear();
+        pick.first->kids.insert(pick.first->kids.begin() + pick.second + (rng.coin() ? 1 : 0), k); return true; }
     case M_ROOT: {
         if (rng.coin()) root.name = POOL(TAG_POOL, rng);
         else {
@@ -860,6 +955,12 @@ int main(int argc, char **argv)
         for (unsigned i : indices[k]) { ops.push_back("codec-val " + table[k].name + " " + std::to_string(i)); ops.push_back("codec-gen " + table[k].name + " " + std::to_string(i)); }
     }
     auto gen = askDriver(ops);
+    std::vector<std::vector<QString>> classTags(table.size());
+    {
+        std::vector<std::string> tops; for (auto &c : table) tops.push_back("codec-tags " + c.name);
+        auto tres = askDriver(tops);
+        for (size_t k = 0; k < table.size(); k++) for (auto &h : splitBlank(tres[k])) if (h != "-") classTags[k].push_back(unhexQ(h));
+    }
 
     // (0) corpus: minimized documents of past oracle failures, first
     {
@@ -882,6 +983,7 @@ int main(int argc, char **argv)
     for (size_t k = 0; k < table.size(); k++) {
         const ClassEntry &c = table[k];
         stat("schemas_modelled");
+        g_classTags = classTags[k];
         corr("codec-reset " + c.name, "ok");
         for (unsigned i : indices[k]) {
             const std::string valText = gen[g++], treeText = gen[g++];
